@@ -274,7 +274,8 @@ Definition hdrOf (c : cfg) (i : Z) : Z := hdrLen (c_dcid c) (c_scid c) (c_tokLen
     during the first flight; kept separate as in the code). *)
 Fixpoint flightLoop (fuel : nat) (c : cfg) (plens : list Z) (i idx off rem : Z) : list dgres :=
   match fuel with
-  | O => []
+  | O => if rem <=? 0 then [] else [DGErr 98]   (* out of fuel (model artefact, excluded by
+                                                  flight_fuel_sufficient): the code has no bound *)
   | S f =>
     let pnLen := pnLenOf c i in
     let hdr := hdrOf c i in
@@ -362,10 +363,13 @@ Definition flightPlanned (c : cfg) (helloLen : Z) (plens : list Z) : list dgres 
         if sizeRuleOk bs (Z.of_nat (length bs)) 0 plens then plannedLoop c plens 0 else [DGErr 2]
     end.
 
-Definition maxDatagrams : nat := 10.
+(** There is no bound on the number of Initial datagrams in the code (the connection calls
+    PackCoalescedPacket until it returns nil).  Every datagram carries at least one CRYPTO byte,
+    so helloLen + 1 steps always suffice: the fuel never runs out (flight_fuel_sufficient). *)
+Definition flightFuel (helloLen : Z) : nat := S (Z.to_nat helloLen).
 
 Definition flight (c : cfg) (helloLen : Z) (plens : list Z) : list dgres :=
   match c_bk c with
-  | BFlight => firstn maxDatagrams (flightPlanned c helloLen plens)
-  | _ => flightLoop maxDatagrams c plens 0 0 0 helloLen
+  | BFlight => flightPlanned c helloLen plens
+  | _ => flightLoop (flightFuel helloLen) c plens 0 0 0 helloLen
   end.
